@@ -797,6 +797,19 @@ func StrLenInt(s *Term) *Term {
 			return IntC(int64(n.(int)))
 		}
 	}
+	if s.Op == "str.substr" && s.Args[1].Const && s.Args[2].Const {
+		// constant window into a string of known length
+		if bl := StrLenInt(s.Args[0]); bl.Const {
+			o, l, n := int64(s.Args[1].U), int64(s.Args[2].U), int64(bl.U)
+			if o < 0 || o >= n || l <= 0 {
+				return IntC(0)
+			}
+			if o+l > n {
+				l = n - o
+			}
+			return IntC(l)
+		}
+	}
 	if s.Op == "str.++" {
 		var sum *Term = IntC(0)
 		for _, a := range s.Args {
@@ -1001,6 +1014,51 @@ func StrSubstr(s, off, n *Term) *Term { // Int off, n
 	}
 	if sl := StrLenInt(s); sl.Const && off.Const && n.Const && off.U == 0 && int64(n.U) == int64(sl.U) {
 		return s
+	}
+	// general case over a concatenation of parts with known lengths: per-part sub-ranges
+	if s.Op == "str.++" && off.Const && n.Const && int64(off.U) >= 0 && int64(n.U) >= 0 {
+		o, l := int64(off.U), int64(n.U)
+		var take []*Term
+		ok := true
+		for _, p := range s.Args {
+			if l == 0 {
+				break
+			}
+			pl := StrLenInt(p)
+			if !pl.Const {
+				ok = false
+				break
+			}
+			n0 := int64(pl.U)
+			if o >= n0 {
+				o -= n0
+				continue
+			}
+			cnt := n0 - o
+			if cnt > l {
+				cnt = l
+			}
+			take = append(take, StrSubstr(p, IntC(o), IntC(cnt)))
+			l -= cnt
+			o = 0
+		}
+		if ok {
+			return StrConcat(take...)
+		}
+	}
+	// substr of a substr with constant bounds
+	if s.Op == "str.substr" && off.Const && n.Const && s.Args[1].Const && s.Args[2].Const {
+		io, il := int64(s.Args[1].U), int64(s.Args[2].U)
+		o, l := int64(off.U), int64(n.U)
+		if o >= 0 && l >= 0 && io >= 0 && il >= 0 {
+			if o >= il {
+				return StrC("")
+			}
+			if o+l > il {
+				l = il - o
+			}
+			return StrSubstr(s.Args[0], IntC(io+o), IntC(l))
+		}
 	}
 	return strOp(SString, "str.substr", s, off, n)
 }
